@@ -20,4 +20,10 @@ CHECKS["C06"] = {
     "note": "Trusted: comparison table transcription (DESIGN.md appendix D), checked against the RFC's own table rows in the self-test.",
     "technique": T_EXH,
 }
+CHECKS["C02"] = {
+    "text": "All filter expressions with <=2 units over 27 atoms x 4 unit forms (x, !x, (x), !(x)), <=3 units over a 16-unit subset (<=4 over 8 in thorough), joined by &&/|| under every parenthesisation/negation of sub-groups, are generated as text, parsed by the reference parser (which alone decides precedence and grouping) and run through the real find() on array and object documents whose children cover every JSON kind (0, false, \"\", null, [], {} included), below $.k, under a descendant segment, inside a nested filter (checks $ scoping), in multi-selector segments and on scalar roots. 153 036 expressions / 9.9 M (expression, child) evaluations in quick.",
+    "ref": "DESIGN.md section 5, C02",
+    "note": "Trusted: R2 parser (cross-checked against the ABNF engine R1) and R3 evaluator; match/search atoms use literal patterns only.",
+    "technique": T_EXH,
+}
 PENDING = {}
